@@ -27,8 +27,9 @@
 
    What the requests of one key share with the requests of another one is only
    queuesMutex (atomicity, no data), the clock (an input of every action) and the
-   metrics (not modelled): actions carry their key, the step function touches the
-   state of that key only.  That the real plugin behaves like this product is what
+   metrics (the gauge callback is the read-only step MScrape of Scrape.v; the
+   requests counter is not modelled): actions carry their key, the step function
+   touches the state of that key only.  That the real plugin behaves like this product is what
    the correspondence suite [plugin] checks (several remedies, equal strategies
    under different names, one name with different strategies).
 
